@@ -92,6 +92,15 @@ C03_PassedHasYes == \A id \in Ids :
 C03_ExecuteAdmitted == Step /\ IsOk("execute") =>
   /\ Has(Pid)
   /\ KF3q(Pid) \/ (execd[Pid] = 0 /\ ~closedH[Pid] /\ PassedNow(props[Pid], now'))
+\* ... and the status used to admit Execute is that outcome: a proposal whose ballots imply Passed is admitted
+\* (authorised caller; messages that cannot fail when dispatched - a failed dispatch legitimately fails the call)
+Harmless(ms) == \A i \in 1..Len(ms) : ms[i].k = "msg" /\ ms[i].harmless
+ExecAuthorised(by) == \/ cfg.executor = "none"
+                      \/ cfg.executor = "member" /\ by \in Addr /\ voters[by] >= 0
+                      \/ cfg.executor = by
+C03_ExecuteMustBeAdmitted == Step /\ E.act = "execute" /\ Has(Pid) =>
+  LET p == props[Pid] IN
+  (execd[Pid] = 0 /\ ~closedH[Pid] /\ PassedNow(p, now') /\ ExecAuthorised(E.by) /\ Harmless(p.msgs)) => Ok \/ KF3q(Pid)
 C03_CloseAdmitted == Step /\ IsOk("close") =>
   /\ Has(Pid)
   /\ KF3q(Pid) \/ (execd[Pid] = 0 /\ Expired(props[Pid].expires, now') /\ ~PassedNow(props[Pid], now'))
@@ -157,8 +166,8 @@ C06_TableTotal == cfg.flavour = "fixed" => gtotal = SumW(voters)
 C06_FixedTableStatic == Step /\ cfg.flavour = "fixed" => voters' = voters /\ gtotal' = gtotal
 
 \* ------------------------------------------------------------------ C15
-TakeMsg(from, amt) == [k |-> "take", tag |-> "", a |-> from, b |-> "ms", amt |-> amt]
-RefundMsg(to, amt) == [k |-> "refund", tag |-> "", a |-> to, b |-> "", amt |-> amt]
+TakeMsg(from, amt) == [k |-> "take", tag |-> "", a |-> from, b |-> "ms", amt |-> amt, harmless |-> TRUE]
+RefundMsg(to, amt) == [k |-> "refund", tag |-> "", a |-> to, b |-> "", amt |-> amt, harmless |-> TRUE]
 C15_ProposeTakes == Step /\ IsOk("propose") =>
   LET q == props'[Len(props')]  d == cfg.dep IN
   /\ q.dep = d
